@@ -169,14 +169,18 @@ func c01globalkey(c *core.Ctx, r *core.Report) {
 					return true
 				}
 				loc := rootIdentObj(call.Args[1], info)
-				for k, what := range map[int]string{2: "source", 3: "destination"} {
+				cnt++
+				for _, kw := range []struct {
+					k    int
+					what string
+				}{{2, "source"}, {3, "destination"}} {
+					k, what := kw.k, kw.what
 					arg := call.Args[k]
 					root := rootIdentObj(arg, info)
 					if r2, ok := rangeOver[root]; ok {
 						root = r2
 					}
 					// loc itself as value (e.g. transfer(..., x, x.X, x)) is fine
-					cnt++
 					n++
 					key := fmt.Sprintf("analysis/dataflow.%s|transfer#%d|%s", fd.Name.Name, cnt, what)
 					if root == nil || loc == nil {
